@@ -22,6 +22,9 @@ R-C02-5  (syntax) delimiters agree between lexer and printer: the quote that end
          templates print; the doc-string delimiter of the lexer is the one the DocStr template prints.
 R-C02-6  (dominance, shared with R-C13-1/2) only a fully successful pipeline writes, with create+truncate (no stale tail of a longer
          older file is left behind the new text).
+R-C02-7  (syntax) literals, as far as the shape of the code shows: the lexer's string loop ends on the closing quote or with an error;
+         integer digit strings are printed without leading zeros; string text is printed on one line.
+R-C02-8  (table) no hard keyword of Python is available as a Mamba name.
 R-C01-2  (reused) nothing is silently turned into Core::Empty in statement position.
 R-C10-*  (reused, without the grouping-only chain rows) an operand that Python's grammar does not allow bare in a hole is parenthesised.
 """
@@ -347,6 +350,8 @@ def run(chk, facts):
     _wrappers(chk, facts, pm, rd)
     _delimiters(chk, facts, pm)
     _write(chk, facts)
+    _literals(chk, facts)
+    _keywords(chk, facts)
     from .c01 import _drops
     _drops(chk, facts)
     # operands that need parentheses to stay one operand (a conditional expression as a comprehension condition, a lambda as an
@@ -356,8 +361,8 @@ def run(chk, facts):
     n0 = len(chk.obligations)
     c10.run(chk, facts)
     chk.obligations = chk.obligations[:n0] + [o for o in chk.obligations[n0:] if not o["key"].startswith("R-C10-1|chain-level")]
-    chk.assume("that every literal lexeme the lexer accepts is a Python literal is not decided (it is not true: leading zeros, raw newlines in strings); "
-               "identifiers that are Python keywords are not decided")
+    chk.assume("that every literal lexeme the lexer accepts is a Python literal is decided only for the three shapes of R-C02-7; escape sequences inside strings, "
+               "and quotes inside interpolations are not decided")
     chk.notes.append("C02: template model evaluated on small trees (CPython's parser is the grammar oracle; mamba is not run); construction-site guards; wrapper classification.")
 
 
@@ -811,3 +816,118 @@ def _write(chk, facts):
         chk.ob("R-C02-6", "writes-the-source", ok, "the bytes written are the emitted source, unmodified" if ok else "write_source no longer writes `source` as it is", facts.loc_of(ws))
     except AnchorError as e:
         chk.anchor_fail("R-C02-6", e)
+
+
+# ------------------------------------------------------------------------------------------------------------------------
+def _literals(chk, facts):
+    """R-C02-7: the parts of the literal language that are visible in the shape of the code.
+    (a) the string loop of the lexer ends on the closing quote or with an error - never silently at the end of the input;
+        a `}` only closes an open `{` (otherwise the counter goes negative and the quote is never seen);
+    (b) integer digit strings (Int, the integer mantissa and the exponent of an E-number) are printed without leading zeros;
+    (c) the text of a string is printed on one line (line breaks escaped)."""
+    syn = facts.syn
+    chk.rule("R-C02-7", "literals: strings end at their quote or with an error; integers lose leading zeros; string text is printed on one line")
+    try:
+        tk = syn.one_fn("into_tokens", mod="parse::lex::tokenize")
+        loc = facts.loc_of(tk)
+        arm = None
+        for n in walk(tk["body"]):
+            if n.get("k") == "match":
+                for a in n["arms"]:
+                    if any(alt.get("k") == "plit" and alt["e"].get("t") == "char" and alt["e"]["v"] == '"' for alt in pat_alternatives(a["pat"])):
+                        arm = a
+                if arm:
+                    break
+        if arm is None or arm["body"].get("k") != "block":
+            raise AnchorError("lexer arm for '\"' not found")
+        stmts = arm["body"]["stmts"]
+        loops = [(i, strip(s_.get("e", {}))) for i, s_ in enumerate(stmts) if s_.get("k") == "expr" and strip(s_.get("e", {})).get("k") == "for"]
+        if len(loops) != 1:
+            raise AnchorError(f"string arm: {len(loops)} top-level loops")
+        li, loop = loops[0]
+        # the break that ends the loop, and the flag set just before it
+        flag = None
+        for n in walk(loop["body"]):
+            if n.get("k") == "if" and any(x.get("k") == "break" for x in walk(n["then"])):
+                for st in n["then"]["stmts"]:
+                    e = strip(st.get("e", {})) if st.get("k") == "expr" else {}
+                    if e.get("k") == "assign" and src(strip(e["r"])) == "true":
+                        flag = src(strip(e["l"]))
+        after = stmts[li + 1:]
+        ok = False
+        if flag:
+            for st in after:
+                e = strip(st.get("e", {})) if st.get("k") == "expr" else {}
+                if e.get("k") == "if" and src(strip(e["c"])).replace(" ", "").strip("()") == "!" + flag and any(x.get("k") == "return" and "Err(" in src(x) for x in walk(e["then"])):
+                    ok = True
+        chk.ob("R-C02-7", "string-loop:ends-on-quote-or-error", ok, "the string loop records that it saw the closing quote; otherwise the lexer returns an error" if ok else
+               "the string loop of the lexer can end because the input ran out and the token is created all the same: an unterminated string (or an unclosed `{` in it) "
+               "swallows the rest of the file and is printed as an unterminated Python string", loc)
+        dec = [n for n in walk(loop["body"]) if n.get("k") == "if" and "'}'" in src(n["c"])]
+        ok = any(re.search(r"build_cur_expr>0", src(n["c"]).replace(" ", "")) for n in dec)
+        chk.ob("R-C02-7", "string-loop:brace-counter-non-negative", ok, "a `}` decrements the interpolation depth only when one is open" if ok else
+               "a `}` without an open `{` drives the interpolation counter negative: the closing quote is no longer recognised (`\"}\"`)", loc)
+    except AnchorError as e:
+        chk.anchor_fail("R-C02-7", e)
+    try:
+        t2c, cn = chain.nodety_to_core(facts)
+        loc = facts.loc_of(cn)
+
+        def helper_with(pred):
+            return {f["name"] for f in syn.fns if f["mod"].startswith("generate::convert") and f.get("body") and pred(src(f["body"]).replace(" ", ""))}
+        zero = helper_with(lambda s: "trim_start_matches('0')" in s and '"0"' in s)
+        line = helper_with(lambda s: "replace('\\n'" in s or 'replace("\\n"' in s)
+        def calls_in_field(row, field):
+            st = chain._struct_of(row["arm"]["body"])
+            if st is None:
+                return set()
+            e = dict(st["fields"]).get(field)
+            return {n["f"]["p"].split("::")[-1] for n in walk(e) if n.get("k") == "call" and n["f"].get("k") == "path"} if e is not None else set()
+        for v, field in (("Int", "int"), ("ENum", "num"), ("ENum", "exp")):
+            rows = [r for r in t2c if r["src"] == v]
+            ok = len(rows) == 1 and bool(calls_in_field(rows[0], field) & zero)
+            chk.ob("R-C02-7", f"leading-zeros:{v}.{field}", ok, f"{v}.{field}: the digits are printed without leading zeros" if ok else
+                   f"convert_node copies the digits of {v}.{field} as they are: the lexer accepts `007`, Python rejects decimal integers with leading zeros", loc)
+        rows = [r for r in t2c if r["src"] == "Str"]
+        ok = len(rows) == 2 and all(calls_in_field(r, "string") & line for r in rows)
+        chk.ob("R-C02-7", "string-text:one-line", ok, "Str / FStr: line breaks in the text are escaped" if ok else
+               "convert_node copies the text of a string as it is: a string that spans lines in the source is printed as a quoted string with a raw line break, which Python rejects", loc)
+    except AnchorError as e:
+        chk.anchor_fail("R-C02-7", e)
+
+
+# ------------------------------------------------------------------------------------------------------------------------
+def rejected_words(facts):
+    """words the identifier arm of the lexer refuses: `if <CONST>.contains(&word) { return Err(..) }` before the token is created"""
+    syn = facts.syn
+    tk = syn.one_fn("into_tokens", mod="parse::lex::tokenize")
+    out = set()
+    for n in walk(tk["body"]):
+        if n.get("k") == "if" and any(x.get("k") == "return" and "Err(" in src(x) for x in walk(n["then"])):
+            c = strip(n["c"])
+            if c.get("k") == "mcall" and c["m"] == "contains" and strip(c["recv"]).get("k") == "path" and "id_or_operation" in src(c["args"][0]):
+                const = syn.consts.get("parse::lex::tokenize::" + strip(c["recv"])["p"]) or syn.consts.get(strip(c["recv"])["p"])
+                if const is not None and const["e"].get("k") == "array":
+                    out |= {e["v"] for e in const["e"]["elems"] if e.get("k") == "lit"}
+    return out, tk
+
+
+def _keywords(chk, facts):
+    """R-C02-8: a name is copied into the output; every hard keyword of Python must therefore be unavailable as a Mamba name:
+    a keyword of the Mamba lexer (then it is syntax, printed by a template), one of None/True/False (printed as themselves),
+    or refused by the lexer. Oracle: `keyword.kwlist` of the CPython running the check (soft keywords are valid names)."""
+    import keyword
+    from . import lexer
+    chk.rule("R-C02-8", "every hard keyword of Python is a Mamba keyword, a literal name (None/True/False) or refused by the lexer as a name")
+    try:
+        lm = lexer.LexerModel(facts)
+        rej, tk = rejected_words(facts)
+    except AnchorError as e:
+        chk.anchor_fail("R-C02-8", e)
+        return
+    loc = facts.loc_of(tk)
+    for kw in keyword.kwlist:
+        how = "a Mamba keyword" if kw in lm.keywords else "a literal name" if kw in ("None", "True", "False") else "refused by the lexer" if kw in rej else None
+        chk.ob("R-C02-8", f"python-keyword:{kw}", how is not None, f"`{kw}` is {how}" if how else
+               f"`{kw}` is a keyword of Python but an ordinary identifier for the lexer: `def {kw} := 1` is accepted and emitted as `{kw} = 1`, which Python rejects", loc)
+    chk.floor("R-C02-8", len(keyword.kwlist), 33, "Python keywords")
